@@ -7,7 +7,7 @@ tie   : T-cor - the extracted model and the real containers (kit managers / allo
 oracle: the property predicate evaluated inside harness.cpp on the real code (independent of the model)."""
 import os, sys, importlib.util
 
-NATIVE = ['Array', 'ArrayIC', 'Seg', 'HashSet', 'HashMap', 'HashMulti', 'TreeSet', 'TreeMap']
+NATIVE = ['Array', 'ArrayIC', 'Seg', 'HashSet', 'HashMap', 'HashMulti', 'TreeSet', 'TreeMap', 'DataTable']
 WRAP = ['vec', 'set', 'mset', 'map', 'mmap', 'uset', 'umap', 'ummap']
 CREW_WRAP = ['set', 'mset', 'map', 'mmap', 'uset', 'umap', 'ummap']
 ARRAYS = ['Array', 'ArrayIC', 'Seg', 'vec']
@@ -15,6 +15,8 @@ TRAITS = [str(k) for k in range(8)] + ['8'] + [str(k) for k in range(16, 24)]
 
 KEY_D12 = 'stdish-swap-moved-from-assert'
 KEY_D13 = 'stdish-move-assign-into-moved-from-nonpropagating'
+# follow-ups that USE a moved-from object (as a source, for insertion, lookup, initializer-list assignment): outside the claim
+OUTSIDE = ('fmove', 'ccopy', 'find', 'ilist', 'reuse')
 
 
 def _load_run_impl(ctx):
@@ -44,6 +46,8 @@ def states_for(kind, role):
         return ['e', 'n1', 'n7', 'c10', 'd700'] if role == 's' else ['e', 'n3', 'd100']
     if kind in ('HashMulti', 'ummap'):
         return ['e', 'n1', 'n6', 'c6', 'v10', 'v3', 'n50'] if role == 's' else ['e', 'n3', 'v6']
+    if kind == 'DataTable':
+        return ['e', 'n1', 'n6', 'c6', 'f6', 'n50'] if role == 's' else ['e', 'n3', 'f5']
     raise ValueError(kind)
 
 
@@ -64,6 +68,7 @@ def expected_ids_by_std(tr, kind, op, sid, tid, aid):
     if op in ('none',) or op.startswith('self'): return ('-', str(sid))
     if tr == '8': return ('0', 'null' if source_moved_from_by_std(tr, kind, op, sid, tid, aid) else '0')
     s_after = 'null' if source_moved_from_by_std(tr, kind, op, sid, tid, aid) else str(sid)
+    if op == 'merge': return (str(sid), str(tid))
     if op in ('copyc', 'movec'): t = sid
     elif op in ('copyca', 'moveca'): t = aid
     elif op == 'copya': t = sid if ca else tid
@@ -93,6 +98,8 @@ def gen_cases(ctx, scale):
 
     def posts_for(tr, kind, op, ids):
         p = ['none', 'clear', 'swapf', 'fswap', 'massign', 'cassign']
+        live = not source_moved_from_by_std(tr, kind, op, *ids) or kind in ARRAYS
+        if live: p += ['fmove', 'ccopy', 'find'] + (['ilist'] if kind in CREW_WRAP else [])
         if kind in ARRAYS or op in ('copyc', 'copyca', 'copya', 'swap', 'none') or op.startswith('self'):
             p.append('reuse')
         elif not source_moved_from_by_std(tr, kind, op, *ids):
@@ -105,6 +112,7 @@ def gen_cases(ctx, scale):
                 if int(tr if tr != 'N' else 0) >= 16 and kind != 'vec': continue
                 ops = ['copyc', 'copyca', 'movec', 'copya', 'movea', 'swap', 'selfcopya', 'selfmovea', 'selfswap', 'none']
                 if fam == 'W': ops.append('moveca')
+                if kind == 'DataTable': ops.remove('copyca')
                 for op in ops:
                     for ss in states_for(kind, 's'):
                         tss = states_for(kind, 't')
@@ -122,8 +130,14 @@ def gen_cases(ctx, scale):
                 for ss in (fss[1:3] if scale > 1 else [fss[2]]):
                     for ids in (idsets if scale > 1 else idsets[:3]):
                         for op in (['movec', 'movea'] + (['moveca'] if fam == 'W' else [])):
-                            for post in ['clear', 'swapf', 'fswap', 'massign', 'cassign', 'none']:
+                            for post in ['clear', 'swapf', 'fswap', 'massign', 'cassign', 'none', 'fmove', 'ccopy', 'find'] + (['ilist'] if kind in CREW_WRAP else []) + (['reuse'] if ids == idsets[0] else []):
                                 add(tr, kind, op, ss, 'n3', ids, post)
+    # c7fda03: TreeSet::MergeTo into an empty set with an equal manager, then the source dies, then the target is used
+    for kind in ('TreeSet', 'TreeMap'):
+        for ss in states_for(kind, 's'):
+            for tsx in ('e', 'c10'):
+                add('N', kind, 'merge', ss, tsx, (1, 1, 1), 'none')
+                add('N', kind, 'merge', ss, tsx, (5, 5, 7), 'none')
     # dedupe keeping order
     seen = set(); out = []
     for c in cases:
@@ -133,7 +147,7 @@ def gen_cases(ctx, scale):
 
 
 def case_fields(c):
-    tr, kind, op, ss, ts, sid, tid, aid, post = c.split()
+    tr, kind, op, ss, ts, sid, tid, aid, post = c.split()[:9]
     return tr, kind, op, ss, ts, int(sid), int(tid), int(aid), post
 
 
@@ -202,6 +216,7 @@ def build_binaries(ctx):
 def evaluate(ctx, cases, lines):
     """the oracle verdicts printed by the harness -> violations / known findings.  returns list of (case, line, why, key)"""
     bad = []
+    outside = [0]
     for c, l in zip(cases, lines):
         parts = l.split(' | ')
         orc = parts[1] if len(parts) > 1 else 'orc=unparsable:' + l[:80]
@@ -219,11 +234,39 @@ def evaluate(ctx, cases, lines):
             continue
         if orc.startswith('orc=abort'):
             if precondition_violated(c): continue
+            if post in OUTSIDE and kind not in ARRAYS and source_moved_from_by_std(tr, kind, op, sid, tid, aid):
+                outside[0] += 1      # use of a moved-from object beyond destroy/clear/swap/assign-into: not claimed
+                continue
             key = classify_abort(c)
             bad.append((c, l, 'abort (assertion / null crew) in: ' + c, key))
         else:
             bad.append((c, l, orc[4:], None))
+    ctx.coverage['outside_claim_aborts_on_moved_from_use'] = ctx.coverage.get('outside_claim_aborts_on_moved_from_use', 0) + outside[0]
     return bad
+
+
+def attach_structure_tokens(ctx, cases):
+    """first pass: ask the harness for the object graph of every distinct (binary, kind, source state, target state)
+    (`describe`), then append the two structure tokens to every case line.  The harness re-validates the tokens on the
+    built objects; the model builds its structured states (Bodies.v) from them."""
+    ri = _load_run_impl(ctx)
+    suffix = '.san' if ctx.tier == 'thorough' else ''
+    keys = {}
+    for c in cases:
+        tr, kind, op, ss, ts, sid, tid, aid, post = case_fields(c)
+        keys.setdefault((tr if tr == 'N' else '0', kind, ss, ts), None)
+    q = ['%s %s describe %s %s 1 1 1 none' % k for k in keys]
+    out = ri.run_all(q, ctx.build, suffix)
+    for k, l in zip(list(keys), out):
+        f = l.split(' | ')[0].split()
+        keys[k] = (f[0][2:], f[1][2:]) if len(f) == 2 and f[0].startswith('S:') and f[1].startswith('T:') else ('*', '*')
+    res = []
+    for c in cases:
+        tr, kind, op, ss, ts, sid, tid, aid, post = case_fields(c)
+        a, b = keys[(tr if tr == 'N' else '0', kind, ss, ts)]
+        res.append('%s %s %s' % (c, a, b))
+    ctx.coverage['structure_descriptions'] = len(keys)
+    return res
 
 
 def run_impl_cases(ctx, cases, tag):
@@ -241,6 +284,7 @@ def replay(ctx, rp):
         print('replay has no concrete case (no-failing-input-found): broken stages were', list(rp.get('broken', {}).keys())); return 1
     if not build_binaries(ctx):
         print('harness does not build'); return 2
+    if len(case.split()) == 9: case = attach_structure_tokens(ctx, [case])[0]
     lines, _ = run_impl_cases(ctx, [case], 'replay')
     print('case:', case, '\nimplementation:', lines[0])
     bad = evaluate(ctx, [case], lines)
@@ -268,6 +312,7 @@ def run(ctx):
     cases = gen_cases(ctx, scale)
     if not ok_build:
         return ctx.finish(rule=RULE)
+    cases = attach_structure_tokens(ctx, cases)
     impl_lines, impl_path = run_impl_cases(ctx, cases, 'all')
     ctx.evaluations += len(cases)
     have_model = ctx.stages.get('prove', {}).get('ok') and ctx.extract()
@@ -281,7 +326,8 @@ def run(ctx):
     # the property predicate on the real code (always; bigger generator when a stage broke = the search stage)
     if any(not s['ok'] for s in ctx.stages.values()) and scale == 1 and not ctx.violations:
         ctx.log('a stage broke: searching the implementation with the thorough generator')
-        extra = [c for c in gen_cases(ctx, 4) if c not in set(cases)]
+        have = set(' '.join(c.split()[:9]) for c in cases)
+        extra = attach_structure_tokens(ctx, [c for c in gen_cases(ctx, 4) if c not in have])
         more, _ = run_impl_cases(ctx, extra, 'search')
         cases = cases + extra; impl_lines = impl_lines + more; ctx.evaluations += len(extra)
     bad = evaluate(ctx, cases, impl_lines)
